@@ -1005,11 +1005,21 @@ func main() {
 		// plain FEN lines (one per line) of generated valid positions and of positions along random games
 		w.Flush()
 		for i := 0; i < *n; {
-			b, err := board.FromFEN(r.source(corpus, false))
+			src := r.source(corpus, false)
+			var push move.Move
+			if r.rng.Intn(4) == 0 {
+				// a position with an en-passant target: right after a capturable double push
+				fen, mv := gen.EpStress2(r.rng)
+				src, push = fen, move.From(Square(mv[0]))|move.To(Square(mv[1]))
+			}
+			b, err := board.FromFEN(src)
 			if err != nil {
 				continue
 			}
-			for ply := 0; ply < 12 && i < *n; ply++ {
+			if push != 0 && contains(proj.Playable(b, r.ms), push) {
+				b.MakeMove(push)
+			}
+			for ply := 0; ply < 3 && i < *n; ply++ {
 				if b.FiftyCnt <= 100 {
 					fmt.Fprintln(w, b.FEN())
 					i++
